@@ -9,7 +9,7 @@ from .common import CLIENTS, REAL_NET, STUB_NET, ASSUME_NET, viol
 ID = "C14"
 ENGINE = "netsim"
 LEVEL = "exploration"
-RUNS = {"quick": 16000, "thorough": 500000}
+RUNS = {"quick": 30000, "thorough": 1200000}
 BUDGET_S = {"quick": 45, "thorough": 480}
 BATCH = 40
 AFTER_CLOSE_S = 120.0
